@@ -596,6 +596,11 @@ func (g *Gen) Block() []*chain.TxRecord {
 // would settle for right now, with no or very little slack: the request is accepted, and whether it
 // can still be honoured at the end of the block depends on what else the block moves.
 func (g *Gen) Tighten(m sdk.Msg, ctx sdk.Context) (out sdk.Msg) {
+	return g.TightenWith(m, ctx, []int64{0, 0, 1, 10, 100}[g.R.Intn(5)])
+}
+
+// TightenWith: slack in 1e-4 of the quoted amount.
+func (g *Gen) TightenWith(m sdk.Msg, ctx sdk.Context, slack int64) (out sdk.Msg) {
 	out = m
 	defer func() {
 		if e := recover(); e != nil {
@@ -604,7 +609,6 @@ func (g *Gen) Tighten(m sdk.Msg, ctx sdk.Context) (out sdk.Msg) {
 	}()
 	cctx, _ := ctx.CacheContext()
 	k := g.W.App.AmmKeeper
-	slack := []int64{0, 0, 1, 10, 100}[g.R.Intn(5)] // in 1e-4
 	up := func(a math.Int) math.Int { return a.MulRaw(10000 + slack).QuoRaw(10000) }
 	down := func(a math.Int) math.Int { return a.MulRaw(10000 - slack).QuoRaw(10000) }
 	switch x := m.(type) {
